@@ -1,7 +1,919 @@
-//! C06 — TODO
-use mc_core::Ctx;
+//! C06 — all parties derive the same aggregate key from the same registrations.
+//!
+//! Bounded exhaustive enumeration on the real code. A *registration set* is a set of
+//! (party, stake) pairs over a pool of 5 certified parties (real BLS keys with proof of
+//! possession, operational certificate and KES signature; two of the keys share the longest
+//! common byte prefix found among 4096 deterministic candidates). For every set of the family
+//! every permutation of the registration order is pushed through four computation routes
+//!
+//! * `stm`        mithril-stm directly: `KeyRegistration::register` … `close_registration` →
+//!                `Clerk::compute_aggregate_verification_key`, signers made with
+//!                `Initializer::try_create_signer`;
+//! * `signer`     `SignerBuilder::new` + `compute_aggregate_verification_key` +
+//!                `restore_signer_from_initializer` (mithril-signer: `single_signer.rs`,
+//!                `signable_seed_builder.rs`);
+//! * `aggregator` `SignerBuilder::new` + `build_multi_signer().compute_aggregate_verification_key()`
+//!                (mithril-aggregator: `epoch_service.rs::precompute_epoch_data`);
+//! * `client`     `MessageBuilder::compute_mithril_stake_distribution_message` on a
+//!                `MithrilStakeDistribution` parsed from its JSON message text,
+//!
+//! each fed with the inputs in memory and after every encode/decode round trip the nodes use
+//! (message-part JSON, entity JSON, epoch-settings JSON + stake re-association, json-hex keys,
+//! bytes-hex keys, raw bytes). The oracle only compares: inside one set everything (key bytes,
+//! json-hex text, total stake, every member's signer slot) must be identical, the total stake is
+//! the sum of the registered stakes, and two different sets never share a key.
 
-pub fn run(_ctx: &Ctx) -> ! {
-    eprintln!("C06: not implemented");
-    std::process::exit(2)
+use std::collections::BTreeMap;
+use std::sync::Arc;
+
+use mc_core::{Ctx, Report, catch, par_map, permutations};
+use mithril_client::{MessageBuilder, MithrilCertificate, MithrilStakeDistribution};
+use mithril_common::crypto_helper::{
+    KesEvolutions, KesPeriod, KesSigner, KesSignerStandard, ProtocolAggregateVerificationKey,
+    ProtocolAggregateVerificationKeyForConcatenation, ProtocolInitializer, ProtocolKey, ProtocolOpCert,
+    ProtocolSignerVerificationKeyForConcatenation, ProtocolSignerVerificationKeySignatureForConcatenation,
+};
+use mithril_common::entities::{
+    ProtocolMessage, ProtocolMessagePartKey, ProtocolParameters, Signer, SignerWithStake, SingleSignature,
+};
+use mithril_common::messages::{SignerMessagePart, SignerWithStakeMessagePart};
+use mithril_common::protocol::{MultiSigner, SignerBuilder};
+use mithril_common::test::builder::MithrilFixtureBuilder;
+use mithril_common::test::double::Dummy;
+use mithril_stm::{
+    AggregateVerificationKeyForConcatenation, Clerk, Initializer, KeyRegistration, MithrilMembershipDigest,
+    Parameters, VerificationKeyProofOfPossessionForConcatenation,
+};
+use rand_chacha::ChaCha20Rng;
+use rand_core::SeedableRng;
+use serde_json::{Value, json};
+
+type D = MithrilMembershipDigest;
+/// (index of the party in the pool, stake it registers with)
+type Member = (usize, u64);
+
+const POOL: usize = 5;
+const CANDIDATES: usize = 4096;
+/// a stake no f64 can carry (2^53 + 1): a lossy numeric route changes it
+const BIG: u64 = (1u64 << 53) + 1;
+const STAKES: [u64; 4] = [1, 2, 10, BIG];
+
+const PATHS: [&str; 4] = ["stm", "signer", "aggregator", "client"];
+const STM_ENCODINGS: [&str; 4] = ["mem", "raw-bytes", "json-hex", "bytes-hex"];
+const SB_ENCODINGS: [&str; 5] = ["mem", "message-json", "entity-json", "epoch-settings-json", "bytes-hex-keys"];
+const CLIENT_ENCODINGS: [&str; 2] = ["message-json", "message-json-bytes-hex-keys"];
+
+fn base_encoding(path: &str) -> &'static str {
+    if path == "client" { "message-json" } else { "mem" }
+}
+
+struct Party {
+    party_id: String,
+    candidate: usize,
+    vk_bytes: [u8; 96],
+    vk: ProtocolSignerVerificationKeyForConcatenation,
+    kes_sig: Option<ProtocolSignerVerificationKeySignatureForConcatenation>,
+    opcert: Option<ProtocolOpCert>,
+    /// mithril-stm initializer holding the party's secret key (stake is set per case)
+    stm_init: Initializer,
+    /// the signer node's stored protocol initializer, one per stake value
+    inits: BTreeMap<u64, ProtocolInitializer>,
+}
+
+struct World {
+    parties: Vec<Party>,
+    pp: ProtocolParameters,
+    params: Parameters,
+    msg: ProtocolMessage,
+    msg_bytes: Vec<u8>,
+    cert: MithrilCertificate,
+    common_prefix_bits: usize,
+}
+
+fn candidate_rng(j: usize) -> ChaCha20Rng {
+    let mut seed = [0u8; 32];
+    seed[..8].copy_from_slice(b"C06-key-");
+    seed[8..16].copy_from_slice(&(j as u64).to_le_bytes());
+    ChaCha20Rng::from_seed(seed)
+}
+
+fn common_prefix_bits(a: &[u8], b: &[u8]) -> usize {
+    let mut n = 0;
+    for (x, y) in a.iter().zip(b.iter()) {
+        if x == y {
+            n += 8;
+        } else {
+            n += (x ^ y).leading_zeros() as usize;
+            break;
+        }
+    }
+    n
+}
+
+fn build_world(threads: usize) -> World {
+    // phi_f = 1: every party wins every lottery, so every member's signature exists and its slot can be read
+    let pp = ProtocolParameters::new(1, 4, 1.0);
+    let params: Parameters = pp.clone().into();
+    // operational certificates and KES keys of 5 certified pools (written under TMPDIR = scratch)
+    let fixture = MithrilFixtureBuilder::default().with_signers(POOL).with_protocol_parameters(pp.clone()).build();
+    let fx = fixture.signers_fixture();
+    assert_eq!(fx.len(), POOL);
+
+    // key material: 4096 deterministic candidates; the two with the longest common prefix of the
+    // compressed verification key join the pool together with the first three others
+    let cands: Vec<usize> = (0..CANDIDATES).collect();
+    let vks: Vec<[u8; 96]> = par_map(&cands, threads, |_, j| {
+        Initializer::new(params, 1, &mut candidate_rng(*j))
+            .get_verification_key_proof_of_possession_for_concatenation()
+            .vk
+            .to_bytes()
+    });
+    let mut sorted = cands.clone();
+    sorted.sort_by_key(|j| vks[*j]);
+    let mut best = (0usize, sorted[0], sorted[1]);
+    for w in sorted.windows(2) {
+        let l = common_prefix_bits(&vks[w[0]], &vks[w[1]]);
+        if l > best.0 {
+            best = (l, w[0], w[1]);
+        }
+    }
+    let mut chosen = vec![best.1.min(best.2), best.1.max(best.2)];
+    for j in 0..CANDIDATES {
+        if chosen.len() < POOL && !chosen.contains(&j) {
+            chosen.push(j);
+        }
+    }
+
+    let mut parties = vec![];
+    for (i, &cand) in chosen.iter().enumerate() {
+        let f = &fx[i];
+        let kes_signer = Arc::new(KesSignerStandard::new(
+            f.kes_secret_key_path.clone().expect("certified fixture has a KES key"),
+            f.operational_certificate_path.clone().expect("certified fixture has an operational certificate"),
+        )) as Arc<dyn KesSigner>;
+        let mut inits = BTreeMap::new();
+        for s in STAKES {
+            let init = ProtocolInitializer::setup(params, Some(kes_signer.clone()), Some(KesPeriod(0)), s, &mut candidate_rng(cand))
+                .expect("protocol initializer setup");
+            inits.insert(s, init);
+        }
+        let stm_init = Initializer::new(params, 1, &mut candidate_rng(cand));
+        let vk: ProtocolSignerVerificationKeyForConcatenation = inits[&1].verification_key_for_concatenation().into();
+        let vk_bytes = vk.vk.to_bytes();
+        assert_eq!(vk_bytes, vks[cand], "key generation is a function of the seed");
+        assert_eq!(vk_bytes, stm_init.get_verification_key_proof_of_possession_for_concatenation().vk.to_bytes());
+        for s in STAKES {
+            assert_eq!(inits[&s].verification_key_for_concatenation().vk.to_bytes(), vk_bytes);
+        }
+        parties.push(Party {
+            party_id: f.signer_with_stake.party_id.clone(),
+            candidate: cand,
+            vk_bytes,
+            vk,
+            kes_sig: inits[&1].verification_key_signature_for_concatenation(),
+            opcert: f.signer_with_stake.operational_certificate.clone(),
+            stm_init,
+            inits,
+        });
+    }
+    let mut msg = ProtocolMessage::new();
+    msg.set_message_part(ProtocolMessagePartKey::SnapshotDigest, "c06-digest".to_string());
+    use mithril_common::protocol::ToMessage;
+    let msg_bytes = msg.to_message().into_bytes();
+    World {
+        common_prefix_bits: common_prefix_bits(&parties[0].vk_bytes, &parties[1].vk_bytes),
+        parties,
+        pp,
+        params,
+        msg,
+        msg_bytes,
+        cert: MithrilCertificate::dummy(),
+    }
+}
+
+impl World {
+    fn signer_with_stake(&self, m: Member) -> SignerWithStake {
+        let p = &self.parties[m.0];
+        SignerWithStake {
+            party_id: p.party_id.clone(),
+            verification_key_for_concatenation: p.vk,
+            verification_key_signature_for_concatenation: p.kes_sig,
+            operational_certificate: p.opcert.clone(),
+            kes_evolutions: Some(KesEvolutions(0)),
+            stake: m.1,
+        }
+    }
+}
+
+// ---------------------------------------------------------------------------------------------
+// one evaluation = one registration in a given order on one route with one input encoding
+
+#[derive(Clone, Debug, PartialEq, Eq)]
+struct Out {
+    /// `AggregateVerificationKeyForConcatenation::to_bytes()`
+    avk: Vec<u8>,
+    /// the json-hex text nodes put into protocol messages / certificates
+    json_hex: String,
+    total: u64,
+    /// (party, slot carried by its signature), sorted by party; None on routes that do not sign
+    slots: Option<Vec<(usize, Option<u64>)>>,
+}
+type Res = Result<Out, String>;
+
+fn es<E: std::fmt::Display>(what: &'static str) -> impl Fn(E) -> String {
+    move |e| format!("{what}: {e:#}")
+}
+
+fn out_of(avk: &AggregateVerificationKeyForConcatenation<D>, slots: Option<Vec<(usize, Option<u64>)>>) -> Res {
+    Ok(Out {
+        avk: avk.to_bytes().map_err(es("avk to_bytes"))?,
+        json_hex: ProtocolKey::new(avk.clone()).to_json_hex().map_err(es("avk to_json_hex"))?,
+        total: avk.get_total_stake(),
+        slots,
+    })
+}
+
+fn caught(r: Result<Res, String>) -> Res {
+    match r {
+        Ok(r) => r,
+        Err(p) => Err(format!("panic: {p} at {}", mc_core::last_panic_location())),
+    }
+}
+
+fn stm_key(w: &World, i: usize, enc: &str) -> Result<VerificationKeyProofOfPossessionForConcatenation, String> {
+    let k = w.parties[i].stm_init.get_verification_key_proof_of_possession_for_concatenation();
+    match enc {
+        "mem" => Ok(k),
+        "raw-bytes" => VerificationKeyProofOfPossessionForConcatenation::from_bytes(&k.to_bytes()).map_err(es("key from_bytes")),
+        "json-hex" => {
+            let t = ProtocolKey::new(k).to_json_hex().map_err(es("key to_json_hex"))?;
+            Ok(ProtocolKey::<VerificationKeyProofOfPossessionForConcatenation>::from_json_hex(&t).map_err(es("key from_json_hex"))?.into_inner())
+        }
+        "bytes-hex" => {
+            let t = ProtocolKey::new(k).to_bytes_hex().map_err(es("key to_bytes_hex"))?;
+            // the decoder every node uses: json-hex first, bytes-hex as fallback
+            let k: ProtocolSignerVerificationKeyForConcatenation = t.try_into().map_err(es("key decode"))?;
+            Ok(k.into_inner())
+        }
+        other => Err(format!("unknown stm encoding {other}")),
+    }
+}
+
+/// route `stm`
+fn eval_stm(w: &World, order: &[Member], enc: &str, with_slots: bool) -> Res {
+    caught(catch(|| -> Res {
+        let mut kr = KeyRegistration::initialize();
+        for &(i, s) in order {
+            let k = stm_key(w, i, enc)?;
+            kr.register(s, &k).map_err(es("KeyRegistration::register"))?;
+        }
+        let closed = kr.close_registration(&w.params).map_err(es("close_registration"))?;
+        let clerk = Clerk::<D>::new_clerk_from_closed_key_registration(&w.params, &closed);
+        let avk = clerk.compute_aggregate_verification_key();
+        let slots = if with_slots {
+            let mut slots = vec![];
+            for &(i, s) in order {
+                let mut init = w.parties[i].stm_init.clone();
+                init.stake = s;
+                let signer = init.try_create_signer::<D>(&closed).map_err(es("try_create_signer"))?;
+                slots.push((i, signer.sign(&w.msg_bytes).map(|sig| sig.signer_index)));
+            }
+            slots.sort();
+            Some(slots)
+        } else {
+            None
+        };
+        out_of(avk.to_concatenation_aggregate_verification_key(), slots)
+    }))
+}
+
+fn json_round_trip<T: serde::Serialize + serde::de::DeserializeOwned>(v: &T) -> Result<T, String> {
+    let t = serde_json::to_string(v).map_err(es("to json"))?;
+    serde_json::from_str(&t).map_err(es("from json"))
+}
+
+fn bytes_hex_parts(w: &World, order: &[Member]) -> Result<Vec<SignerWithStakeMessagePart>, String> {
+    let mem: Vec<SignerWithStake> = order.iter().map(|m| w.signer_with_stake(*m)).collect();
+    let mut parts = SignerWithStakeMessagePart::from_signers(mem.clone());
+    for (p, s) in parts.iter_mut().zip(mem.iter()) {
+        p.verification_key_for_concatenation = s.verification_key_for_concatenation.to_bytes_hex().map_err(es("vk to_bytes_hex"))?;
+        p.verification_key_signature_for_concatenation = match &s.verification_key_signature_for_concatenation {
+            Some(k) => Some(k.to_bytes_hex().map_err(es("kes sig to_bytes_hex"))?),
+            None => None,
+        };
+        p.operational_certificate = match &s.operational_certificate {
+            Some(k) => Some(k.to_bytes_hex().map_err(es("opcert to_bytes_hex"))?),
+            None => None,
+        };
+    }
+    Ok(parts)
+}
+
+/// the signer list as a node holds it after the given transport
+fn encode_signers(w: &World, order: &[Member], enc: &str) -> Result<Vec<SignerWithStake>, String> {
+    let mem: Vec<SignerWithStake> = order.iter().map(|m| w.signer_with_stake(*m)).collect();
+    match enc {
+        "mem" => Ok(mem),
+        // certificate metadata / stake distribution message
+        "message-json" => {
+            let parts = json_round_trip(&SignerWithStakeMessagePart::from_signers(mem))?;
+            SignerWithStakeMessagePart::try_into_signers(parts).map_err(es("try_into_signers"))
+        }
+        // the entity's own serde form (artifact / store records)
+        "entity-json" => json_round_trip(&mem),
+        // what a signer node does: signers without stake from the epoch settings message, stakes
+        // re-associated by party id from its own stake distribution
+        "epoch-settings-json" => {
+            let signers: Vec<Signer> = mem.iter().cloned().map(Into::into).collect();
+            let parts = json_round_trip(&SignerMessagePart::from_signers(signers))?;
+            let signers = SignerMessagePart::try_into_signers(parts).map_err(es("SignerMessagePart::try_into_signers"))?;
+            let stakes: BTreeMap<String, u64> = order.iter().map(|m| (w.parties[m.0].party_id.clone(), m.1)).collect();
+            signers
+                .into_iter()
+                .map(|s| {
+                    let stake = *stakes.get(&s.party_id).ok_or("party id lost in transport")?;
+                    Ok(SignerWithStake::from_signer(s, stake))
+                })
+                .collect()
+        }
+        "bytes-hex-keys" => {
+            let parts = json_round_trip(&bytes_hex_parts(w, order)?)?;
+            SignerWithStakeMessagePart::try_into_signers(parts).map_err(es("try_into_signers"))
+        }
+        other => Err(format!("unknown signer-list encoding {other}")),
+    }
+}
+
+struct SbOut {
+    signer: Res,
+    aggregator: Res,
+    multi_signer: Option<MultiSigner>,
+    signatures: Vec<(usize, SingleSignature)>,
+}
+
+/// routes `signer` and `aggregator` (one `SignerBuilder::new`, then each node's own calls)
+fn eval_sb(w: &World, order: &[Member], enc: &str, with_slots: bool) -> SbOut {
+    let r = catch(|| -> Result<SbOut, String> {
+        let signers = encode_signers(w, order, enc)?;
+        let sb = SignerBuilder::new(&signers, &w.pp).map_err(es("SignerBuilder::new"))?;
+        // signer node
+        let signer = catch(|| -> Result<(Out, Vec<(usize, SingleSignature)>), String> {
+            let avk: ProtocolAggregateVerificationKey = sb.compute_aggregate_verification_key();
+            let mut slots = vec![];
+            let mut sigs = vec![];
+            if with_slots {
+                for &(i, s) in order {
+                    let p = &w.parties[i];
+                    let single = sb
+                        .restore_signer_from_initializer(p.party_id.clone(), p.inits[&s].clone())
+                        .map_err(es("restore_signer_from_initializer"))?;
+                    match single.sign(&w.msg).map_err(es("SingleSigner::sign"))? {
+                        Some(sig) => {
+                            slots.push((i, Some(sig.signature.signer_index)));
+                            sigs.push((i, sig));
+                        }
+                        None => slots.push((i, None)),
+                    }
+                }
+                slots.sort();
+            }
+            let out = out_of(avk.to_concatenation_aggregate_verification_key(), with_slots.then_some(slots))?;
+            Ok((out, sigs))
+        });
+        let (signer, signatures) = match signer {
+            Ok(Ok((o, s))) => (Ok(o), s),
+            Ok(Err(e)) => (Err(e), vec![]),
+            Err(p) => (Err(format!("panic: {p} at {}", mc_core::last_panic_location())), vec![]),
+        };
+        // aggregator
+        let ms = sb.build_multi_signer();
+        let aggregator = out_of(ms.compute_aggregate_verification_key().to_concatenation_aggregate_verification_key(), None);
+        Ok(SbOut { signer, aggregator, multi_signer: Some(ms), signatures })
+    });
+    match r {
+        Ok(Ok(o)) => o,
+        Ok(Err(e)) => SbOut { signer: Err(e.clone()), aggregator: Err(e), multi_signer: None, signatures: vec![] },
+        Err(p) => {
+            let e = format!("panic: {p} at {}", mc_core::last_panic_location());
+            SbOut { signer: Err(e.clone()), aggregator: Err(e), multi_signer: None, signatures: vec![] }
+        }
+    }
+}
+
+/// route `client`
+fn eval_client(w: &World, order: &[Member], enc: &str) -> Res {
+    caught(catch(|| -> Res {
+        let parts = match enc {
+            "message-json" => SignerWithStakeMessagePart::from_signers(order.iter().map(|m| w.signer_with_stake(*m)).collect()),
+            "message-json-bytes-hex-keys" => bytes_hex_parts(w, order)?,
+            other => return Err(format!("unknown client encoding {other}")),
+        };
+        let doc = json!({
+            "epoch": 7,
+            "signers": parts,
+            "hash": "c06-msd-hash",
+            "certificate_hash": "c06-certificate-hash",
+            "created_at": "2024-01-01T00:00:00Z",
+            "protocol_parameters": w.pp,
+        });
+        let text = serde_json::to_string(&doc).map_err(es("message to json"))?;
+        let msd: MithrilStakeDistribution = serde_json::from_str(&text).map_err(es("message from json"))?;
+        let message = MessageBuilder::new()
+            .compute_mithril_stake_distribution_message(&w.cert, &msd)
+            .map_err(es("compute_mithril_stake_distribution_message"))?;
+        let hex = message
+            .get_message_part(&ProtocolMessagePartKey::NextAggregateVerificationKey)
+            .ok_or("no NextAggregateVerificationKey part")?
+            .clone();
+        let key = ProtocolAggregateVerificationKeyForConcatenation::from_json_hex(&hex).map_err(es("message part from_json_hex"))?;
+        Ok(Out { avk: key.to_bytes().map_err(es("avk to_bytes"))?, json_hex: hex, total: key.get_total_stake(), slots: None })
+    }))
+}
+
+// ---------------------------------------------------------------------------------------------
+// comparison
+
+struct Eval {
+    path: &'static str,
+    enc: &'static str,
+    perm: usize,
+    res: Res,
+}
+
+/// what differs between two evaluations of the same set: None = nothing
+fn diff(a: &Res, b: &Res) -> Option<(&'static str, String)> {
+    match (a, b) {
+        (Err(_), Err(_)) => None,
+        (Ok(_), Err(e)) | (Err(e), Ok(_)) => Some(("fails", format!("one computation fails ({e}) while the other yields a key"))),
+        (Ok(x), Ok(y)) => {
+            if x.avk != y.avk || x.json_hex != y.json_hex {
+                Some(("avk", format!("aggregate key {} (total stake {}) vs {} (total stake {})", hex::encode(&x.avk), x.total, hex::encode(&y.avk), y.total)))
+            } else if x.total != y.total {
+                Some(("avk", format!("total stake {} vs {}", x.total, y.total)))
+            } else {
+                match (&x.slots, &y.slots) {
+                    (Some(sx), Some(sy)) if sx != sy => Some(("slot", format!("signer slots (party, slot) {sx:?} vs {sy:?}"))),
+                    _ => None,
+                }
+            }
+        }
+    }
+}
+
+fn set_json(set: &[Member]) -> Value {
+    json!(set.iter().map(|m| json!([m.0, m.1.to_string()])).collect::<Vec<_>>())
+}
+
+fn order_of(set: &[Member], perm: &[usize]) -> Vec<Member> {
+    perm.iter().map(|k| set[*k]).collect()
+}
+
+/// encode/decode round trips of the resulting key through every codec nodes use
+fn key_round_trips(rep: &mut Report, set: &[Member], o: &Out) {
+    type K = ProtocolAggregateVerificationKeyForConcatenation;
+    let r = catch(|| -> Result<(), (&'static str, String)> {
+        let e = |c: &'static str| move |x: anyhow::Error| (c, format!("{x:#}"));
+        let same = |c: &'static str, k: &K| -> Result<(), (&'static str, String)> {
+            let b = k.to_bytes().map_err(e(c))?;
+            let h = k.to_json_hex().map_err(e(c))?;
+            if b != o.avk || h != o.json_hex || k.get_total_stake() != o.total {
+                return Err((c, format!("decoded key re-encodes to {} / total {}", hex::encode(b), k.get_total_stake())));
+            }
+            Ok(())
+        };
+        same("json-hex", &K::from_json_hex(&o.json_hex).map_err(e("json-hex"))?)?;
+        same("raw-bytes", &K::from_bytes(&o.avk).map_err(e("raw-bytes"))?)?;
+        let k = K::from_bytes(&o.avk).map_err(e("raw-bytes"))?;
+        let bh = k.to_bytes_hex().map_err(e("bytes-hex"))?;
+        same("bytes-hex", &K::from_bytes_hex(&bh).map_err(e("bytes-hex"))?)?;
+        // the serde route of certificates: a JSON string holding json-hex, decoder with bytes-hex fallback
+        let k2: K = serde_json::from_str(&serde_json::to_string(&k).map_err(|x| ("serde", x.to_string()))?).map_err(|x| ("serde", x.to_string()))?;
+        same("serde", &k2)?;
+        let k3: K = bh.as_str().try_into().map_err(e("decode-fallback"))?;
+        same("decode-fallback", &k3)?;
+        Ok(())
+    });
+    rep.eval();
+    match r {
+        Ok(Ok(())) => rep.outcome("key-round-trip:unchanged"),
+        Ok(Err((codec, what))) => {
+            rep.outcome("key-round-trip:changed");
+            rep.violation(
+                &format!("C06/encoding-round-trip-changes-key:avk/{codec}"),
+                format!("the aggregate key {} of set {} does not survive its {codec} round trip: {what}", hex::encode(&o.avk), set_json(set)),
+                json!({"sets": [set_json(set)], "codec": codec}),
+            );
+        }
+        Err(p) => {
+            rep.outcome("key-round-trip:changed");
+            rep.violation(
+                "C06/encoding-round-trip-changes-key:avk/panic",
+                format!("round trip of the aggregate key of set {} panics: {p}", set_json(set)),
+                json!({"sets": [set_json(set)]}),
+            );
+        }
+    }
+}
+
+/// Level B: the full product for one set. `all_encodings_everywhere`: every encoding at every
+/// permutation (thorough); otherwise every encoding at the first and the last (reversed)
+/// permutation and the base encodings at all of them.
+fn check_set(w: &World, set: &[Member], all_encodings_everywhere: bool) -> Report {
+    let mut rep = Report::new("exploration", "");
+    let perms = permutations(set.len());
+    let mut evals: Vec<Eval> = vec![];
+    let mut prev_ms: Option<(usize, MultiSigner)> = None;
+    for (pi, perm) in perms.iter().enumerate() {
+        let order = order_of(set, perm);
+        let all_enc = all_encodings_everywhere || pi == 0 || pi + 1 == perms.len();
+        for enc in STM_ENCODINGS {
+            if enc == "mem" || all_enc {
+                evals.push(Eval { path: "stm", enc, perm: pi, res: eval_stm(w, &order, enc, true) });
+            }
+        }
+        for enc in SB_ENCODINGS {
+            if !(enc == "mem" || all_enc) {
+                continue;
+            }
+            let o = eval_sb(w, &order, enc, true);
+            evals.push(Eval { path: "signer", enc, perm: pi, res: o.signer });
+            evals.push(Eval { path: "aggregator", enc, perm: pi, res: o.aggregator });
+            if enc == "mem"
+                && let Some(ms) = o.multi_signer
+            {
+                // what the property is for: a signature made by a signer that registered the parties in
+                // one order is checked by an aggregator that registered them in another order
+                for (i, sig) in &o.signatures {
+                    let own = ms.verify_single_signature(&w.msg, sig).is_ok();
+                    if !own {
+                        rep.outcome("signature:rejected-by-same-order-aggregator");
+                        continue;
+                    }
+                    if let Some((ppi, pms)) = &prev_ms {
+                        rep.eval();
+                        match pms.verify_single_signature(&w.msg, sig) {
+                            Ok(()) => rep.outcome("signature:accepted-by-other-order-aggregator"),
+                            Err(e) => {
+                                rep.outcome("signature:rejected-by-other-order-aggregator");
+                                rep.violation(
+                                    "C06/signature-rejected-by-aggregator-built-in-other-order",
+                                    format!(
+                                        "set {}: the signature of party {i} made after registering in order {:?} is accepted by the aggregator built in the same order but rejected by the one built in order {:?}: {e:#}",
+                                        set_json(set), order, order_of(set, &perms[*ppi])
+                                    ),
+                                    json!({"sets": [set_json(set)], "party": i, "signer_order": perm, "aggregator_order": perms[*ppi]}),
+                                );
+                            }
+                        }
+                    }
+                }
+                prev_ms = Some((pi, ms));
+            }
+        }
+        for enc in CLIENT_ENCODINGS {
+            if enc == "message-json" || all_enc {
+                evals.push(Eval { path: "client", enc, perm: pi, res: eval_client(w, &order, enc) });
+            }
+        }
+    }
+
+    let expected_total: u128 = set.iter().map(|m| m.1 as u128).sum();
+    let find = |path: &str, enc: &str, perm: usize| evals.iter().find(|e| e.path == path && e.enc == enc && e.perm == perm);
+    let describe = |e: &Eval| format!("route {} / inputs {} / order {:?}", e.path, e.enc, order_of(set, &perms[e.perm]));
+    let replay = |a: &Eval, b: &Eval| {
+        json!({"sets": [set_json(set)],
+               "a": {"path": a.path, "encoding": a.enc, "order": perms[a.perm]},
+               "b": {"path": b.path, "encoding": b.enc, "order": perms[b.perm]}})
+    };
+    let mut ok_evals = 0u64;
+    for e in &evals {
+        rep.eval();
+        match &e.res {
+            Ok(o) => {
+                let signs = e.path == "stm" || e.path == "signer";
+                let all_signed = o.slots.as_ref().map(|s| s.iter().all(|x| x.1.is_some())).unwrap_or(false);
+                if !signs || all_signed {
+                    rep.nontrivial(&(set, e.path, e.enc, &perms[e.perm]));
+                    ok_evals += 1;
+                } else {
+                    rep.outcome("member-without-signature");
+                }
+                // total stake is the sum of what was registered
+                if o.total as u128 != expected_total {
+                    rep.violation(
+                        &format!("C06/total-stake-not-sum-of-registered-stakes:{}", e.path),
+                        format!("set {}: {} reports total stake {} but the registered stakes sum to {expected_total}", set_json(set), describe(e), o.total),
+                        replay(e, e),
+                    );
+                }
+            }
+            Err(_) => rep.outcome("computation-failed"),
+        }
+    }
+    let cmp = |rep: &mut Report, a: &Eval, b: &Eval, class: &str| {
+        let Some((kind, what)) = diff(&a.res, &b.res) else {
+            rep.outcome("same-set:equal");
+            return;
+        };
+        rep.outcome("same-set:differs");
+        let key = match (class, kind) {
+            ("order", "avk") => format!("C06/avk-depends-on-registration-order:{}", a.path),
+            ("order", "slot") => format!("C06/slot-depends-on-order:{}", a.path),
+            ("order", _) => format!("C06/registration-fails-in-some-order:{}", a.path),
+            ("paths", "slot") => format!("C06/slot-differs-between-paths:{}-vs-{}", a.path, b.path),
+            ("paths", _) => format!("C06/paths-disagree:{}-vs-{}", a.path, b.path),
+            (_, _) => format!("C06/encoding-round-trip-changes-key:{}/{}", b.path, b.enc),
+        };
+        rep.violation(&key, format!("set {}: [{}] and [{}] differ: {what}", set_json(set), describe(a), describe(b)), replay(a, b));
+    };
+    // (1) order: inside one (route, encoding) every permutation gives what the first one gave
+    for path in PATHS {
+        let encs: &[&str] = match path {
+            "stm" => &STM_ENCODINGS,
+            "client" => &CLIENT_ENCODINGS,
+            _ => &SB_ENCODINGS,
+        };
+        for enc in encs {
+            let group: Vec<&Eval> = evals.iter().filter(|e| e.path == path && e.enc == *enc).collect();
+            for e in group.iter().skip(1) {
+                cmp(&mut rep, group[0], e, "order");
+            }
+        }
+    }
+    // (2) routes: at every permutation the four routes (base encodings) agree pairwise
+    for pi in 0..perms.len() {
+        for (ia, a) in PATHS.iter().enumerate() {
+            for b in PATHS.iter().skip(ia + 1) {
+                if let (Some(x), Some(y)) = (find(a, base_encoding(a), pi), find(b, base_encoding(b), pi)) {
+                    cmp(&mut rep, x, y, "paths");
+                }
+            }
+        }
+    }
+    // (3) encodings: every transported form gives what the base form gave at the same permutation
+    for e in &evals {
+        if e.enc != base_encoding(e.path)
+            && let Some(base) = find(e.path, base_encoding(e.path), e.perm)
+        {
+            cmp(&mut rep, base, e, "encoding");
+        }
+    }
+    // (4) the resulting key through its own codecs
+    if let Some(o) = evals.iter().find_map(|e| e.res.as_ref().ok()) {
+        key_round_trips(&mut rep, set, o);
+    }
+    if ok_evals == 0 {
+        rep.outcome("set-without-any-key");
+    }
+    if set.len() >= 3
+        && let Some(Eval { res: Ok(o), .. }) = find("signer", "mem", perms.len() - 1)
+    {
+        rep.sample(json!({
+            "set (party, stake)": set_json(set),
+            "registration_order": order_of(set, &perms[perms.len() - 1]).iter().map(|m| m.0).collect::<Vec<_>>(),
+            "route": "signer",
+            "aggregate_key": hex::encode(&o.avk),
+            "total_stake": o.total.to_string(),
+            "slots (party, slot)": o.slots,
+            "permutations": perms.len(),
+            "evaluations_of_this_set": evals.len(),
+        }));
+    }
+    rep
+}
+
+// ---------------------------------------------------------------------------------------------
+// the enumerated families
+
+/// all distinct arrangements of `n` elements drawn from the multiset `pool`
+fn arrangements(pool: &[u64], n: usize) -> Vec<Vec<u64>> {
+    fn rec(pool: &[u64], used: &mut Vec<bool>, cur: &mut Vec<u64>, n: usize, out: &mut Vec<Vec<u64>>) {
+        if cur.len() == n {
+            out.push(cur.clone());
+            return;
+        }
+        for i in 0..pool.len() {
+            if !used[i] {
+                used[i] = true;
+                cur.push(pool[i]);
+                rec(pool, used, cur, n, out);
+                cur.pop();
+                used[i] = false;
+            }
+        }
+    }
+    let mut out = vec![];
+    rec(pool, &mut vec![false; pool.len()], &mut vec![], n, &mut out);
+    out.sort();
+    out.dedup();
+    out
+}
+
+/// all vectors of length n over the alphabet
+fn words(alphabet: &[u64], n: usize) -> Vec<Vec<u64>> {
+    let mut out = vec![vec![]];
+    for _ in 0..n {
+        out = out.iter().flat_map(|w| alphabet.iter().map(move |a| [w.as_slice(), &[*a]].concat())).collect();
+    }
+    out
+}
+
+fn subsets_of_pool(min: usize, max: usize) -> Vec<Vec<usize>> {
+    mc_core::subsets(POOL)
+        .map(|mask| (0..POOL).filter(|i| mask & (1 << i) != 0).collect::<Vec<_>>())
+        .filter(|s| s.len() >= min && s.len() <= max)
+        .collect()
+}
+
+fn with_stakes(members: &[usize], stakes: &[Vec<u64>]) -> Vec<Vec<Member>> {
+    stakes.iter().map(|st| members.iter().copied().zip(st.iter().copied()).collect()).collect()
+}
+
+/// Level B family: sets that get the full permutation × route × encoding product
+fn level_b_sets(thorough: bool) -> Vec<Vec<Member>> {
+    let mut out = vec![];
+    for members in subsets_of_pool(1, 4) {
+        let n = members.len();
+        let mut stakes = arrangements(&[1, 1, 2, 10], n);
+        if thorough {
+            stakes.extend(words(&[1, 2, 10], n));
+            stakes.extend(arrangements(&[1, 1, 2, BIG], n));
+            stakes.sort();
+            stakes.dedup();
+        }
+        out.extend(with_stakes(&members, &stakes));
+    }
+    // the heavy ones first (load balance); stable, so the order is deterministic
+    out.sort_by_key(|s| std::cmp::Reverse(s.len()));
+    out
+}
+
+/// Level A family: every set over the whole pool (sizes 1..=5) and the whole stake alphabet
+fn level_a_sets(thorough: bool) -> Vec<Vec<Member>> {
+    let alphabet: &[u64] = if thorough { &STAKES } else { &STAKES[..3] };
+    let mut out = vec![];
+    for members in subsets_of_pool(1, POOL) {
+        out.extend(with_stakes(&members, &words(alphabet, members.len())));
+    }
+    out.sort_by_key(|s| std::cmp::Reverse(s.len()));
+    out
+}
+
+/// Level A: one key per set on two routes in opposite orders; all keys pairwise distinct
+fn level_a(w: &World, sets: &[Vec<Member>], threads: usize, rep: &mut Report) {
+    let res = par_map(sets, threads, |_, set| {
+        let up = set.clone();
+        let mut down = set.clone();
+        down.reverse();
+        (eval_stm(w, &up, "mem", false), eval_sb(w, &down, "message-json", false).aggregator)
+    });
+    let mut buckets: BTreeMap<Vec<u8>, usize> = BTreeMap::new();
+    for (si, (set, (a, b))) in sets.iter().zip(res.iter()).enumerate() {
+        rep.eval();
+        rep.eval();
+        if let Some((_, what)) = diff(a, b) {
+            rep.outcome("same-set:differs");
+            rep.violation(
+                "C06/paths-disagree:stm-ascending-vs-aggregator-descending",
+                format!("set {}: mithril-stm registering in ascending pool order and the aggregator route registering in descending order differ: {what}", set_json(set)),
+                json!({"sets": [set_json(set)]}),
+            );
+        } else {
+            rep.outcome("same-set:equal");
+        }
+        let expected_total: u128 = set.iter().map(|m| m.1 as u128).sum();
+        for (path, r) in [("stm", a), ("aggregator", b)] {
+            let Ok(o) = r else {
+                rep.outcome("computation-failed");
+                continue;
+            };
+            rep.nontrivial(&("A", set, path));
+            if o.total as u128 != expected_total {
+                rep.violation(
+                    &format!("C06/total-stake-not-sum-of-registered-stakes:{path}"),
+                    format!("set {}: route {path} reports total stake {} but the registered stakes sum to {expected_total}", set_json(set), o.total),
+                    json!({"sets": [set_json(set)]}),
+                );
+            }
+            match buckets.get(&o.avk) {
+                Some(&other) if other != si => {
+                    rep.outcome("distinct-sets:same-key");
+                    rep.violation(
+                        "C06/distinct-sets-same-key",
+                        format!("sets {} and {} are different but both yield the aggregate key {} (route {path})", set_json(&sets[other]), set_json(set), hex::encode(&o.avk)),
+                        json!({"sets": [set_json(&sets[other]), set_json(set)]}),
+                    );
+                }
+                Some(_) => {}
+                None => {
+                    buckets.insert(o.avk.clone(), si);
+                }
+            }
+        }
+    }
+    rep.add_extra("distinct_aggregate_keys", buckets.len() as u64);
+    rep.outcome_n("distinct-sets:distinct-keys", buckets.len() as u64);
+}
+
+fn parse_sets(v: &Value) -> Vec<Vec<Member>> {
+    let one = |s: &Value| -> Vec<Member> {
+        s.as_array()
+            .map(|a| {
+                a.iter()
+                    .map(|m| {
+                        let st = m[1].as_str().and_then(|x| x.parse::<u64>().ok()).or(m[1].as_u64()).unwrap_or(1);
+                        (m[0].as_u64().unwrap_or(0) as usize % POOL, st)
+                    })
+                    .collect()
+            })
+            .unwrap_or_default()
+    };
+    v["sets"].as_array().map(|a| a.iter().map(one).filter(|s| !s.is_empty()).collect()).unwrap_or_default()
+}
+
+pub fn run(ctx: &Ctx) -> ! {
+    let thorough = ctx.tier.pick(false, true);
+    let threads = ctx.threads();
+    let mut rep = Report::new(
+        "exploration",
+        "every registration set of the family (non-empty subsets of a pool of 5 certified parties, two of whose keys share \
+         the longest common prefix found, stakes from {1,1,2,10}; thorough adds all of {1,2,10}^N and a stake above 2^53) is \
+         registered in EVERY order (N<=4: 24 permutations) on four routes - mithril-stm directly, the signer node's and the \
+         aggregator's use of SignerBuilder, the client's compute_mithril_stake_distribution_message on the parsed JSON \
+         message - with the inputs in memory and after every transport encoding; each evaluation yields key bytes, json-hex \
+         text, total stake and every member's signer slot (read from a signature it makes), which must be identical inside \
+         a set; then one key per set of the whole lattice (sizes 1-5) is computed on two routes in opposite orders and all \
+         keys must be pairwise distinct. A case (set, order, route, encoding) is non-trivial when the registration closed, \
+         a key came out and - on the signing routes - every member obtained a signature carrying its slot",
+    );
+    // the certified fixture writes operational certificates and KES keys under the temp dir
+    let scratch = ctx.scratch();
+    unsafe { std::env::set_var("TMPDIR", &scratch) };
+    let w = build_world(threads);
+    eprintln!("[C06] world built at {:.1}s", ctx.elapsed_s());
+    rep.extra(
+        "pool",
+        json!({
+            "key_candidates": CANDIDATES,
+            "parties": w.parties.iter().enumerate().map(|(i, p)| json!({"party": i, "candidate": p.candidate, "party_id": p.party_id, "verification_key_prefix": hex::encode(&p.vk_bytes[..8])})).collect::<Vec<_>>(),
+            "common_prefix_bits_of_parties_0_and_1": w.common_prefix_bits,
+            "stake_values": STAKES.iter().map(|s| s.to_string()).collect::<Vec<_>>(),
+            "protocol_parameters": {"k": w.pp.k, "m": w.pp.m, "phi_f": w.pp.phi_f},
+        }),
+    );
+    rep.assume("mithril-aggregator is not linked: its route is mirrored by the calls epoch_service.rs::precompute_epoch_data makes (SignerBuilder::new(&signers, &protocol_parameters)?.build_multi_signer() and compute_aggregate_verification_key() on the result); the signer node's route mirrors single_signer.rs / signable_seed_builder.rs (SignerBuilder::new, compute_aggregate_verification_key, restore_signer_from_initializer)");
+    rep.assume("phi_f = 1 so that every member wins a lottery and its slot can be read from a real signature; the key does not depend on the protocol parameters in this build (no future_snark)");
+    rep.assume("the client route yields a key only (a client has no slots); slots are compared between the stm and signer routes, and the aggregator's view of a slot through MultiSigner::verify_single_signature of signatures made under another registration order");
+    rep.assume("total stake is taken to mean the sum of the registered stakes");
+    rep.assume("keys come from a constant-seeded ChaCha20 RNG; KES material from the repository's certified test fixture");
+
+    if let Some(path) = &ctx.replay {
+        let v = mc_core::load_replay(path);
+        let sets = parse_sets(&v);
+        if sets.is_empty() {
+            rep.machinery_error("replay file holds no set".into());
+            rep.finish(ctx);
+        }
+        for s in &sets {
+            if s.len() <= 4 {
+                rep.merge(check_set(&w, s, true));
+            }
+        }
+        level_a(&w, &sets, threads, &mut rep);
+        rep.nontrivial(&0);
+        rep.nontrivial(&1);
+        rep.finish(ctx);
+    }
+
+    let b_sets = level_b_sets(thorough);
+    let parts = par_map(&b_sets, threads, |_, s| check_set(&w, s, thorough));
+    for p in parts {
+        rep.merge(p);
+    }
+    eprintln!("[C06] level B ({} sets) done at {:.1}s", b_sets.len(), ctx.elapsed_s());
+    let a_sets = level_a_sets(thorough);
+    level_a(&w, &a_sets, threads, &mut rep);
+    eprintln!("[C06] level A ({} sets) done at {:.1}s", a_sets.len(), ctx.elapsed_s());
+
+    let by_size = |sets: &[Vec<Member>]| {
+        let mut m: BTreeMap<String, u64> = BTreeMap::new();
+        for s in sets {
+            *m.entry(format!("N={}", s.len())).or_insert(0) += 1;
+        }
+        json!(m)
+    };
+    rep.extra(
+        "bounds",
+        json!({
+            "level_B_sets (all orders x routes x encodings)": b_sets.len(),
+            "level_B_sets_by_size": by_size(&b_sets),
+            "level_B_permutations": {"N=1": 1, "N=2": 2, "N=3": 6, "N=4": 24},
+            "level_B_encodings": {"stm": STM_ENCODINGS, "signer/aggregator": SB_ENCODINGS, "client": CLIENT_ENCODINGS},
+            "level_B_encodings_applied": if thorough { "every encoding at every permutation" } else { "base encoding at every permutation; every encoding at the identity and the reversed permutation" },
+            "level_A_sets (one key each, distinctness)": a_sets.len(),
+            "level_A_sets_by_size": by_size(&a_sets),
+            "pool_size": POOL,
+        }),
+    );
+    rep.finish(ctx)
 }
